@@ -152,7 +152,7 @@ type c19case struct {
 }
 
 func TestC19_StateMachine(t *testing.T) {
-	ev.Rule(c19, "rapid state machine over a real mpx.Client (on-demand and auto-connect, MaxConns 1..4, channel target 1..8) behind a counting proxy: actions {open a channel and keep it, round trip on an open channel, free a channel, burst of 2..12 concurrent Channel calls, kill all connections, server unreachable, server reachable, 50 ms dial latency, Close, quiesce}; invariants at quiescent points (polled until stable): exactly one of Connected/Disconnected, Connected => Conn OK and a channel round-trips, proxy-side live connections <= MaxConns (high-water mark over intervals without kills), after Close: second Close OK, calls return a closed status, live connections drop to 0 and stay 0; after the server is back an on-demand client's next call succeeds and an auto-connect client reconnects by itself; non-trivial = run contains a kill-and-recover and a concurrent burst, or a Close racing a dial; distinct by step hash")
+	ev.Rule(c19, "rapid state machine over a real mpx.Client (on-demand and auto-connect, MaxConns 1..4, channel target 1..8) behind a counting proxy: actions {open a channel and keep it, round trip on an open channel, free a channel, burst of 2..12 concurrent Channel calls, kill all connections, kill all connections and reset the replacement connection after 0..8 handshake bytes while its connect routine is held between dial and registration (schedule point 16), server unreachable, server reachable, 50 ms dial latency, Close, quiesce}; invariants at quiescent points (polled until stable): exactly one of Connected/Disconnected, Connected => Conn OK and a channel round-trips, proxy-side live connections <= MaxConns (high-water mark over intervals without kills), after Close: second Close OK, calls return a closed status, live connections drop to 0 and stay 0; after the server is back an on-demand client's next call succeeds and an auto-connect client reconnects by itself (a connection appears at the proxy before the check makes any call); non-trivial = run contains a kill-and-recover and a concurrent burst, or a Close racing a dial; distinct by step hash")
 	srv, err := netfx.StartServer(echoHandler(), netfx.NewLogger(), mpx.Default())
 	if err != nil {
 		t.Fatalf("infrastructure: %v", err)
@@ -203,6 +203,16 @@ func TestC19_StateMachine(t *testing.T) {
 				return status.Newf("corrupt", "echo differs")
 			}
 			return st
+		}
+		// "reconnects by itself": no call is made until the client has a connection again
+		// (a call would take the client's slow path and connect on demand)
+		waitSelf := func(when string) {
+			for dl := time.Now().Add(boundArrive()); px.Live.Load() == 0; {
+				if time.Now().After(dl) {
+					fail("no-auto-reconnect", "%s: the server is reachable, the auto-connect client has no connection and did not open one by itself within %v (no call was made meanwhile; Connected=%v Disconnected=%v)", when, boundArrive(), cl.Connected().IsSet(), cl.Disconnected().IsSet())
+				}
+				time.Sleep(time.Millisecond)
+			}
 		}
 		quiesce := func() {
 			step("quiesce")
@@ -259,6 +269,9 @@ func TestC19_StateMachine(t *testing.T) {
 			if up {
 				// quiescent = re-checked until stable: the client may need a moment to notice a
 				// loss that happened just before; the checks must hold within 6 s
+				if auto {
+					waitSelf("at a quiescent point")
+				}
 				var problem, key string
 				for dl := time.Now().Add(6 * time.Second); ; {
 					problem, key = "", ""
@@ -353,6 +366,53 @@ func TestC19_StateMachine(t *testing.T) {
 					fail("burst-failed", "%s", bad)
 				}
 			case 4: // kill
+				if !closed && up && rapid.IntRange(0, 2).Draw(rt, "killinwindow") == 0 {
+					// the replacement connection dies between "dial returned" and "connection registered"
+					// (schedule point 16): the proxy holds the accepted connection, starts forwarding when
+					// the connect routine reaches the point and resets it after a few handshake bytes, while
+					// the routine is held for 30 ms. The client has to drop that connection again.
+					after := rapid.IntRange(0, 8).Draw(rt, "windowcutafter")
+					step("kill all connections; the next one is reset after %d bytes while its connect routine is between dial and registration", after)
+					px.SetPlan(netfx.Plan{Kind: netfx.CutRST, Dir: 0, After: after})
+					px.Hold()
+					disarm := setTrap(mpx.VerifPointClientConnStarted, func() {
+						px.Release()
+						time.Sleep(30 * time.Millisecond)
+					})
+					px.KillAll(netfx.CutRST)
+					t0 := time.Now().UnixNano()
+					for _, ch := range open {
+						ch.Free()
+					}
+					open = nil
+					if !auto {
+						if ch, st := cl.Channel(ctx()); st.OK() {
+							ch.Free()
+						}
+					} else {
+						// the auto-connect client dials by itself; wait for the held routine to pass
+						for dl := time.Now().Add(3 * time.Second); px.CutAt.Load() < t0 && time.Now().Before(dl); {
+							time.Sleep(time.Millisecond)
+						}
+						time.Sleep(40 * time.Millisecond)
+					}
+					fired := disarm()
+					if fired {
+						ev.Label(c19, "connection-died-inside-connect-window", 1)
+					}
+					px.Release()
+					px.SetPlan(netfx.Plan{})
+					dirty, killRecover = true, true
+					if auto {
+						waitSelf("after the replacement connection was reset inside the connect window")
+						if fired && rapid.Bool().Draw(rt, "killagain") {
+							step("kill all connections again, no call in between")
+							px.KillAll(netfx.CutRST)
+							waitSelf("after the connections were lost a second time")
+						}
+					}
+					continue
+				}
 				step("kill all connections")
 				px.KillAll(netfx.CutRST)
 				dirty = true
